@@ -169,6 +169,71 @@ FMTPOS = {'format_to': 2, 'format_to_va': 2, 'print_to_with': 2, 'scan_from_with
           'print_with': 0, 'println_with': 0, 'scan_with': 0, 'scanln_with': 0}
 
 
+def check_float_assign_and_look_from(P, ctx):
+    """(a) scan delivers a Float through assign(target, $F(value)): Float's assign stores the double it is given, whatever its magnitude —
+    evaluated for values across the double range; (b) look_from returns what the type's look member returns — the position after what was
+    read, which scan_from_with and every caller that reads a sequence continues from — evaluated."""
+    from . import cint
+    rule = 'C15.float-assign-exact'
+    fn = P.fn(P.slot('Float', 'Assign', 'assign'))
+    ctx.fn(fn)
+    bad, unsup = None, None
+    for v in (0.0, 1.5, -2.25, 3.5e38, -3.5e38, 1e300, -1e300, 5e-324, float('inf'), float('-inf')):
+        atoms = {('global', 'NULL'): 0, ('elem', 'self', 0, 'val'): 123.0}
+
+        def call(nm, e, it, v=v):
+            if nm in ('c_float', 'Float_C_Float'):
+                return v
+            if nm == 'cast':
+                return it.ev(e[2][0])
+            raise cint.NoEval('call %s' % nm)
+        it = cint.CInt(P, fn, atoms=atoms, call=call, recurse=False, strict=True)
+        it.atoms = atoms
+        try:
+            r = it.run([('ep', 'self', 0), 9000])
+        except Exception as x:            # an arithmetic the evaluator has no meaning for
+            unsup = unsup or '%r: %s' % (v, x)
+            continue
+        if r[0] != 'ret':
+            unsup = unsup or '%r: %s' % (v, r[1])
+        elif atoms[('elem', 'self', 0, 'val')] != v:
+            bad = bad or 'assigned %r, the Float holds %r' % (v, atoms[('elem', 'self', 0, 'val')])
+    if unsup and not bad:
+        ctx.undecided(rule, fn['name'], site(fn), 'leaves the evaluated fragment: ' + unsup)
+    else:
+        ctx.check(bad is None, rule, fn['name'], site(fn), 'assigning a double to a Float stores that double (values up to 1e300, the infinities and the smallest denormal evaluated)', [bad] if bad else None)
+    ctx.floor(rule, 1)
+    rule = 'C15.look-returns-the-position'
+    fn = P.fn('look_from')
+    ctx.fn(fn)
+    bad, unsup = None, None
+    for pos, end in ((0, 5), (15, 25), (27, 49)):
+        ev_ = []
+
+        def call(nm, e, it, end=end, ev_=ev_):
+            if nm == 'method_at_offset':
+                return ('ep', 'show', 0)
+            if nm is None:
+                ev_.append([it.ev(a) for a in e[2]])
+                return end
+            raise cint.NoEval('call %s' % nm)
+        atoms = {('global', 'NULL'): 0, ('global', 'Show'): 8600, ('elem', 'show', 0, 'look'): 4242, ('elem', 'show', 0, 'show'): 4241, ('offsetof',): 8}
+        it = cint.CInt(P, fn, atoms=atoms, call=call, recurse=False, strict=True)
+        it.atoms = atoms
+        r = it.run([5000, 3, pos])
+        if r[0] != 'ret' or not isinstance(r[1], int):
+            unsup = unsup or 'from position %d: %s' % (pos, r[1])
+        elif ev_ != [[5000, 3, pos]]:
+            bad = bad or 'from position %d: the look member is called with %s' % (pos, ev_)
+        elif r[1] != end:
+            bad = bad or 'the look member read from position %d to %d; look_from returns %d' % (pos, end, r[1])
+    if unsup and not bad:
+        ctx.undecided(rule, 'look_from', site(fn), 'leaves the evaluated fragment: ' + unsup)
+    else:
+        ctx.check(bad is None, rule, 'look_from', site(fn), 'look_from hands (self, input, pos) to the type\'s look member and returns its result, the position after what was read', [bad] if bad else None)
+    ctx.floor(rule, 1)
+
+
 def check_data_never_format(P, ctx, rule='C15.data-is-never-a-format'):
     """text that came from an object (a String's characters, a name) reaches a formatting routine only as an argument: used as the format
     it is interpreted again (`%%` collapses, a lone `%` consumes an argument that is not there), so what is written — or what look appends
@@ -201,6 +266,7 @@ def run(ctx, load):
     check_specs(P, ctx)
     check_scan(P, ctx)
     check_int_assign_exact(P, ctx)
+    check_float_assign_and_look_from(P, ctx)
     # the writer side of the round trip: print_to_with hands every numeric argument to the sink unchanged (no narrowing), per
     # specification letter, and counts what was written (shared with C14)
     from .rules_c14 import check_print
